@@ -65,6 +65,7 @@ type RunCfg struct {
 	Crashes   []CrashSpec
 	JobFaults map[string]string
 	ExtraFiles bool
+	ChunkRes   bool // splits return per-chunk resource requests
 	SlowLabel string // tasks whose label contains this get SlowDiv times less weight
 	SlowDiv   int
 	Restarts  int  // maximal number of restarts the operator performs
@@ -93,6 +94,7 @@ type Run struct {
 	Faults     map[string]int // fault kinds that actually fired
 	StepHooks  []func()
 	OnJobStart func(j *JobRec)
+	PreStart   func()
 	ExtraLaunch func(p *vrt.Proc, c *vproc.Cmd) func() int
 	DupJournal  func(j *JobRec) bool
 	DropHeartbeat func(j *JobRec) bool
@@ -156,7 +158,15 @@ func (r *Run) jobFault(j *JobRec) string {
 	return ""
 }
 
-func (r *Run) chunkResources(j *JobRec, i int) (float64, float64) { return 0, 0 }
+func (r *Run) chunkResources(j *JobRec, i int) (float64, float64) {
+	if !r.Cfg.ChunkRes {
+		return 0, 0
+	}
+	h := hash64(r.FCfg.Salt, j.Key(), fmt.Sprint(i))
+	ths := []float64{0, 1, 2, 0.5, 3, -1, 16}
+	mems := []float64{0, 1, 2, 0.25, 5, -2, 64}
+	return ths[h%uint64(len(ths))], mems[(h/8)%uint64(len(mems))]
+}
 
 func (r *Run) noteFile(j *JobRec, p, content string) {
 	r.Files[p] = &FileRec{Path: p, Content: content, Job: j, Seq: vos.NextSeq()}
@@ -460,6 +470,9 @@ func (r *Run) Execute() {
 		if t.Proc != nil {
 			vproc.Finish(t.Proc, 2, 0)
 		}
+	}
+	if r.PreStart != nil {
+		r.PreStart()
 	}
 	r.Start = time.Now()
 	defer func() {
